@@ -129,17 +129,28 @@ theorem C03_native_deduction : statement_native_deduction := Cspuz.Proofs.C03.na
 /-! ### Non-vacuity: concrete instances -/
 
 /-- a sparse, permuted variable list; all operator families; a native graph constraint with `*`. -/
-example :
-    cspDescription [⟨7, .bool⟩, ⟨2, .int (-3) 5⟩, ⟨0, .bool⟩]
-      [.node .or [], .node .eq [.node .sub [.ivar 2, .litI (-2)], .node .neg [.litI 3]], .litB true,
-       .node .boolConst [.litB false], .node .ite [.bvar 7, .node .intConst [.litI 4], .litI 0] |> fun e => .node .le [e, .litI 9],
-       .node .graphDiv [.litI 2, .litI 1, .litNone, .litI 2, .litI 0, .litI 1, .bvar 0]]
-      (some [true, false, true])
+def exVars : List SVar := [⟨7, .bool⟩, ⟨2, .int (-3) 5⟩, ⟨0, .bool⟩]
+def exCs : List Expr :=
+  [.node .or [], .node .eq [.node .sub [.ivar 2, .litI (-2)], .node .neg [.litI 3]], .litB true,
+   .node .boolConst [.litB false], .node .le [.node .ite [.bvar 7, .node .intConst [.litI 4], .litI 0], .litI 9],
+   .node .graphDiv [.litI 2, .litI 1, .litNone, .litI 2, .litI 0, .litI 1, .bvar 0]]
+
+set_option maxRecDepth 100000 in
+example : cspDescription exVars exCs (some [true, false, true])
     = .ok "(bool b7)\n(int i2 -3 5)\n(bool b0)\n(|| )\n(= (- i2 -2) (- 3))\ntrue\nfalse\n(<= (if b7 4 0) 9)\n(graph-division 2 1 * 2 0 1 b0)\n#b7 b0" := by
   decide
 
-example : (parseCSP "(bool b7)\n(int i2 -3 5)\n(|| )\n(= (- i2 -2) (- 3))\n#b7").map (fun r => (r.1, r.2.2))
-    = some ([⟨7, .bool⟩, ⟨2, .int (-3) 5⟩], some [['b', '7']]) := by decide
+/-- the hypotheses of `C03_text_roundtrip` hold on it: the text above reads back as the program. -/
+example : ∃ text, cspDescription exVars exCs (some [true, false, true]) = .ok text ∧
+    parseCSP text = some (exVars, exCs.map norm, some [['b', '7'], ['b', '0']]) := by
+  obtain ⟨text, h1, h2, _⟩ := C03_text_roundtrip exVars exCs (some [true, false, true]) (by decide)
+    (by intro ks h; cases h; decide)
+  exact ⟨text, h1, h2⟩
+
+example : sugarWT (.node .and [.bvar 0, .node .eq [.node .add [.ivar 1], .litI 2]]) = true := by decide
+example : sugarWT (.node .graphAVC [.litI 2, .litI 1, .bvar 0, .litB true, .litI 0, .litI 1]) = true := by decide
+/-- the one-operand SUB is excluded (and is exactly what `printable` rejects in a well-typed tree). -/
+example : wtI (.node .sub [.ivar 0]) = true ∧ printable (.node .sub [.ivar 0]) = false := by decide
 
 example : parseSat [⟨7, .bool⟩, ⟨2, .int (-30) 5⟩] "s SATISFIABLE\na i2\t-17\na b7\tfalse\na\n"
     = .ok (true, [some (.b false), some (.i (-17))]) := by decide
